@@ -5,7 +5,9 @@ ROOT = os.path.dirname(os.path.dirname(os.path.abspath(__file__)))
 COQ = os.path.join(ROOT, "coq")
 TH = os.path.join(COQ, "theories")
 BUILD = os.path.join(ROOT, ".build")
-REPO = "/repo"
+# /repo is what registered commands check; VERIF_REPO lets the coordinator point a scratch copy of the
+# framework at a scratch worktree of kustomize (seeded-defect experiments) without touching /repo.
+REPO = os.environ.get("VERIF_REPO", "/repo")
 NCPU = os.cpu_count() or 4
 
 GOENV = dict(os.environ, VERIF_ROOT=ROOT, GOFLAGS="-mod=mod", GOPROXY="off", GOSUMDB="off",
@@ -211,7 +213,13 @@ def build_harness():
         sums.update(l for l in open(extra).read().splitlines() if l.strip())
     write_if_changed(os.path.join(hdir, "go.sum"), "\n".join(sorted(sums)) + "\n")
     binp = os.path.join(BUILD, "harness")
-    rc, out, dt = sh(["go", "build", "-tags", "verif", "-o", binp, "."], cwd=hdir, env=GOENV, timeout=1200)
+    cmd = ["go", "build", "-tags", "verif", "-o", binp]
+    if REPO != "/repo":
+        alt = os.path.join(BUILD, "alt.go.mod")
+        write_if_changed(alt, open(os.path.join(hdir, "go.mod")).read().replace("=> /repo/", "=> %s/" % REPO))
+        write_if_changed(os.path.join(BUILD, "alt.go.sum"), open(os.path.join(hdir, "go.sum")).read())
+        cmd += ["-modfile", alt]
+    rc, out, dt = sh(cmd + ["."], cwd=hdir, env=GOENV, timeout=1200)
     return rc == 0, out
 
 def run_harness(prop, tier, seed, outdir, timeout):
@@ -349,6 +357,7 @@ def run_check(prop, tier, seed):
             if not hok:
                 problems.append(("harness-build", "harness", hlog[-3000:]))
     meta, mism, violations = None, [], []
+    _known0 = {k["cls"] for k in known_findings(prop)}
     outdir = os.path.join(BUILD, "run", prop)
     if cfg.get("harness", True) and hok:
         budget = cfg.get("timeout_quick", 600) if tier == "quick" else cfg.get("timeout_thorough", 5400)
@@ -366,11 +375,25 @@ def run_check(prop, tier, seed):
                     first = [dict(index=i, case=descs[i] if i < len(descs) else None) for i in mism[:5]]
                     problems.append(("correspondence", "Corr/%s: model and implementation disagree on %d of %d cases"
                                      % (prop, len(mism), meta.get("model_cases", 0)), json.dumps(first)[:3000], first))
+    # ---- the disagreeing cases themselves are the first candidates for a failing input: replay each on the
+    #      implementation with the property's own oracles (law checks, panic/hang detection)
+    _known0 = {k["cls"] for k in known_findings(prop)}
+    if mism and meta is not None and hok and not [v for v in violations if v.get("class") not in _known0]:
+        descs = meta.get("case_descs", [])
+        for i in mism[:12]:
+            if i >= len(descs):
+                continue
+            rp = write_replay(prop, "case", dict(case=descs[i], note="case on which model and implementation disagree"))
+            rc, out, _ = sh([os.path.join(BUILD, "harness"), "-replay", rp, prop], cwd=ROOT, env=GOENV, timeout=300)
+            if rc == 1:
+                violations.append(dict(law="replayed-disagreement", **{"class": "%s/replayed-disagreement" % prop},
+                                       detail=out[-600:], replay=descs[i]))
+                break
     # ---- search when an obligation broke and no oracle violation is at hand
-    if problems and not violations and cfg.get("harness", True) and hok and tier == "quick":
+    if problems and not [v for v in violations if v.get("class") not in _known0] and cfg.get("harness", True) and hok and tier == "quick":
         rc, hout, meta2 = run_harness(prop, "thorough", seed + 7919, outdir + "-search", cfg.get("timeout_search", 900))
         if meta2 is not None:
-            violations = meta2.get("violations", [])
+            violations = violations + meta2.get("violations", [])
             notes.append("search run: %d evaluations, %d oracle violations" % (meta2.get("evaluations", 0), len(violations)))
     # ---- verdict
     known = known_findings(prop)
